@@ -27,6 +27,53 @@ CLAIMED = {
        "the hand-written model of the serialisers (tied by K on >10^5 patterns per run). IMA/MS ADPCM decoder conformance is not yet covered by this check.",
   technique="Coq proof (finite domains by vm_compute + forallb lifting; symbolic lia proofs for IEEE) + regenerated tables + differential K correspondence",
   design_ref="DESIGN.md section 5 C20"),
+ "C05": dict(
+  text="Theorems (Coq, closed under the global context) over Api.v, the state machine of the 32 typed sf_read/sf_readf/sf_write/sf_writef wrappers over a "
+       "sample-granular codec: 0 <= r <= requested for every state and every amount the I/O layer transfers; the read position advances by exactly the "
+       "returned frames; the stored items plus the (zero-filled or untouched) tail are exactly the requested region; at end of data 0 is returned, the "
+       "request is zero-filled and no error is set; a fault-free read delivers exactly the next min(requested, remaining) frames of the stream; a write "
+       "returns the request and advances position and frame count by it; the 'whole number of frames' clause is refuted for files with a pad byte "
+       "(witness theorem, replayed on the implementation). Tie: transcription check of all 32 wrappers against the text the model was written from + "
+       "script correspondence (return value, error, both positions, frame count, file cursor, data digest, tail class) over every container x "
+       "sample-granular encoding x channels{1,2,3}, all entry points, straddling / EOF / misaligned / >8 KiB requests; block codecs: contract oracle.",
+  note="Trusted: Coq kernel, the hand-written model Api.v (tied on every run as described), extraction, sfdrive harness (guard-banded buffers, ASan+UBSan "
+       "build of the working tree), PcmConv.v conversions (C02). Block codecs are covered by the property oracle on the implementation only. "
+       "Known findings: SDS final partial block, pad-byte partial frame.",
+  technique="Coq proof over an executable wrapper state machine + source transcription check + differential script correspondence",
+  design_ref="DESIGN.md section 5 C05"),
+ "C06": dict(
+  text="Theorems (Coq): sf_seek returns the requested absolute frame and moves exactly the selected pointer(s), or returns -1 with a non-zero error and "
+       "changes nothing else, or is a pure position query; zero-offset SEEK_CUR reports the next frame; any partition of a read into item/frame calls of "
+       "any sizes delivers the same sequence as one sequential read (induction over the call list); after a successful seek to k the reads deliver frames "
+       "k, k+1, .... Tie: transcription check + script correspondence for the sample-granular encodings; for every block codec (IMA/MS ADPCM, GSM, G72x, "
+       "NMS, VOX, DWVW, DPCM, PAF24, SDS, ALAC) the position-function oracle compares every delivered item with an independent sequential decode after "
+       "reads up to block boundaries, relative/absolute seeks with every whence, targets 0, F-1, F, block edges +-1.",
+  note="Trusted: as C05. The block-codec seek functions are decided by the oracle on the implementation, not by a theorem.",
+  technique="Coq proof (induction over call lists) over the wrapper/default-seek model + transcription check + sequential-decode oracle",
+  design_ref="DESIGN.md section 5 C06"),
+ "C08": dict(
+  text="Theorems (Coq): the cursor invariant (last_op=READ -> file cursor at the read position, last_op=WRITE -> at the write position, data region "
+       ">= frames whole frames) holds in every reachable state of every history of reads, writes, seeks with every whence and truncations (induction "
+       "over the operation list); data written at p is what a read at p returns; writing inside keeps length and everything outside the range, writing at/"
+       "past the end extends; whence|SFM_READ moves only the read pointer, |SFM_WRITE only the write pointer, plain both; SFC_FILE_TRUNCATE n keeps exactly "
+       "the first n frames. Tie: transcription check + random RDWR histories (virtual and descriptor routes, truncate, header updates, close/re-open) over "
+       "every container that opens SFM_RDWR x sample-granular encoding, and ALL histories of depth 2 (quick) / 3 (thorough) over a 13-letter alphabet; the "
+       "model predicts every return value, both positions, cursor, data and what a fresh open sees.",
+  note="Trusted: as C05. Header rewriting and close-time truncation of each container are observed through the re-open, not modelled. RDWR on block codecs "
+       "(PAF24, SDS) is outside the model. Known finding: VOC RDWR close appends a terminator each time.",
+  technique="Coq proof (invariant by induction over operation histories, refinement lemmas) + transcription check + bounded-exhaustive and random differential histories",
+  design_ref="DESIGN.md section 5 C08"),
+ "C09": dict(
+  text="Theorems (Coq): every rejected read/write/seek returns its failure value, records a non-zero error and yields exactly the previous state with only "
+       "the error field changed (record equality: positions, frame count, data, file cursor, last_op); zero-length calls are no-ops; every accepted call "
+       "leaves the error at 0; every error number 0..SFE_MAX_ERROR has a non-empty message that is not the placeholder (complete evaluation over the table "
+       "regenerated from src/sndfile.c on every run). Tie: transcription check + invalid-call sandwiches (every invalid class through all 16 entry points "
+       "and sf_seek, after every kind of preceding operation, in read/write/rdwr mode, followed by valid calls, close and re-open) compared with the model "
+       "field by field incl. the file cursor + state digest before/after + failed-open oracle (truncated/garbage files, impossible formats, three routes, "
+       "descriptor closed, LeakSanitizer).",
+  note="Trusted: as C05; the T1 dump of the error table. Invalid pointer arguments other than NULL are outside the property.",
+  technique="Coq proof (frame conditions as record equalities; finite table by vm_compute) + regenerated error table + differential invalid-call scripts",
+  design_ref="DESIGN.md section 5 C09"),
 }
 
 
